@@ -101,7 +101,7 @@ def run_impl(cases):
 
 
 FINDING_OF_REGION = [('namedtuple', 'namedtupleVsPlainClass'),
-                     ('emptyFixedTuple', 'emptyFixedTuple'), ('typeOfUnion', 'typeOfUnionSubclass')]
+                     ('emptyFixedTuple', 'emptyFixedTuple')]
 
 
 def judge(case, impl, model):
@@ -115,7 +115,7 @@ def judge(case, impl, model):
     corr = ic == mc
     regions = model['regions']
     pfail = None
-    claimed = model['inVocab'] and 'iterator' not in regions and 'fwdUnresolved' not in regions
+    claimed = model['inVocab'] and 'iterator' not in regions and 'fwdUnresolved' not in regions and 'typeOfNonClass' not in regions
     if claimed and model['spec'] and ic != 'accept':
         pfail = f'rejected ({io}) although the value conforms to the annotation (spec `conforms` = true)'
     if pfail is None and claimed:
